@@ -241,43 +241,60 @@ def r03_5(ctx, rep):
         stores = _ast_store(fn) if fn is not None else []
         ok = len(stores) == 1 and _is_ast_of(stores[0].value, lambda s: _ctx_call(s, acc))
         rep.ob(R, site, "pass-through", ok, "must store self.ast[ctx.%s()] unchanged" % acc)
-    # parenthesised expression collapse
+    # parenthesised expression collapse and simple_expression: decided by interpreting the handler on symbolic parse-tree contexts with 1, 2, 3
+    # children (nothing of pymoca runs: sa/symexec.py walks the handler's AST), so the spelling of the handler does not matter
+    from ..symexec import Interp, Obj, SymExecError
+
+    def run_handler(fn, ctx_obj, table):
+        calls_ = {"ast.Slice": lambda **kw: ("Slice", kw.get("start"), kw.get("stop"), kw.get("step")),
+                  "ast.Primary": lambda **kw: ("Primary", kw.get("value"))}
+        for k in [a for a in dir(ctx_obj) if not a.startswith("_")]:
+            v = getattr(ctx_obj, k)
+            if callable(v):
+                calls_["%s.%s" % (fn.args.args[1].arg, k)] = v
+        it = Interp(calls_, {fn.args.args[1].arg: ctx_obj, "self": Obj(ast=table), "self.ast": table})
+        it.run(fn.body)
+        return table.get(ctx_obj, "<nothing stored>")
+
     name = "exitPrimary_output_expression_list"
     site = PARSER + ":%s.%s" % (LISTENER, name)
     fn = ms.get(name)
-    ok = False
+    ok, why = False, "handler missing"
     if fn is not None:
-        stores = _ast_store(fn)
-        first_ok = bool(stores) and isinstance(stores[0].value, ast.ListComp) and not stores[0].value.generators[0].ifs \
-            and norm(stores[0].value.generators[0].iter) == "ctx.output_expression_list().expression()" \
-            and _is_ast_of(stores[0].value.elt, lambda s: is_name(s, stores[0].value.generators[0].target.id))
-        collapse_ok = False
-        for n in walk_local(fn):
-            if isinstance(n, ast.If) and norm(n.test) in ("len(self.ast[ctx]) == 1", "1 == len(self.ast[ctx])"):
-                for st in n.body:
-                    if isinstance(st, ast.Assign) and norm(st.targets[0]) == "self.ast[ctx]" and norm(st.value) == "self.ast[ctx][0]":
-                        collapse_ok = True
-        ok = first_ok and collapse_ok and len(stores) == 2
+        try:
+            res = {}
+            for n_ in (1, 2, 3):
+                kids = [Obj(label="e%d" % i) for i in range(n_)]
+                table = {k: ("ast", k.label) for k in kids}
+                inner = Obj(expression=lambda i=None, _k=kids: _k if i is None else _k[i])
+                ctx_obj = Obj(output_expression_list=lambda _i=inner: _i)
+                res[n_] = run_handler(fn, ctx_obj, table)
+            want = {1: ("ast", "e0"), 2: [("ast", "e0"), ("ast", "e1")], 3: [("ast", "e0"), ("ast", "e1"), ("ast", "e2")]}
+            ok = res == want
+            why = "" if ok else "; ".join("%d expression(s): stored %r, expected %r" % (k, res[k], want[k]) for k in want if res[k] != want[k])
+        except SymExecError as e:
+            raise MechanismMissing(R, "%s uses a construct the handler interpreter does not know (%s)" % (name, e))
     rep.ob(R, site, "single expression collapsed", ok,
-           "(e) must yield e itself, (e1, e2) the list in order: list comprehension over output_expression_list().expression(), collapse when len == 1")
-    # simple_expression: a lone expr passes through
+           "(e) must yield e itself, (e1, e2) the list in order — " + why)
     name = "exitSimple_expression"
     site = PARSER + ":%s.%s" % (LISTENER, name)
     fn = ms.get(name)
-    ok = False
+    ok, why = False, "handler missing"
     if fn is not None:
-        for n in walk_local(fn):
-            if isinstance(n, ast.If) and isinstance(n.test, ast.Compare) and "len(ctx.expr())" in norm(n.test):
-                branches = [n.body, n.orelse]
-                for b in branches:
-                    for st in b:
-                        if isinstance(st, ast.Assign) and norm(st.targets[0]) == "self.ast[ctx]" and norm(st.value) in (
-                                "self.ast[ctx.expr()[0]]", "self.ast[ctx.expr(0)]"):
-                            # this must be the branch for exactly one expr
-                            t = norm(n.test)
-                            one_branch = n.orelse if t in ("len(ctx.expr()) > 1", "len(ctx.expr()) >= 2", "len(ctx.expr()) != 1") else n.body
-                            ok = b is one_branch
-    rep.ob(R, site, "lone expr passes through", ok, "with one expr the handler must store self.ast[ctx.expr()[0]]")
+        try:
+            res = {}
+            for n_ in (1, 2, 3):
+                kids = [Obj(label="e%d" % i) for i in range(n_)]
+                table = {k: ("ast", k.label) for k in kids}
+                ctx_obj = Obj(expr=lambda i=None, _k=kids: _k if i is None else _k[i])
+                res[n_] = run_handler(fn, ctx_obj, table)
+            want = {1: ("ast", "e0"), 2: ("Slice", ("ast", "e0"), ("ast", "e1"), ("Primary", 1)), 3: ("Slice", ("ast", "e0"), ("ast", "e2"), ("ast", "e1"))}
+            ok = res == want
+            why = "" if ok else "; ".join("%d expr(s): stored %r, expected %r" % (k, res[k], want[k]) for k in want if res[k] != want[k])
+        except SymExecError as e:
+            raise MechanismMissing(R, "%s uses a construct the handler interpreter does not know (%s)" % (name, e))
+    rep.ob(R, site, "lone expr passes through", ok,
+           "one expr is passed through, start:stop gets step 1, start:step:stop keeps its step in the middle — " + why)
     # if-expression split
     name = "exitExpression_if"
     site = PARSER + ":%s.%s" % (LISTENER, name)
